@@ -249,27 +249,30 @@ Definition twins_eqb (a b : twins) : bool :=
 (* further entry points that consult the same switches, probed with a handle no OPEN ever returned:
    FLUSH (ENOSYS in no-open mode), GETATTR(Some h) / FSYNC(h) / READDIR(h) (handle mode: the unknown handle is
    refused; no-open / no-opendir mode: the handle is ignored and the request served from the inode) and
-   WRITE with WRITE_KILL_PRIV (CAP_FSETID dropped around the write only with the kill-priv switch).
-   [Some true] = the handle-less path was taken / the setuid bit was cleared; [None] = not observable. *)
+   WRITE with WRITE_KILL_PRIV (CAP_FSETID dropped around the write only with the kill-priv switch), and WRITE whose
+   request flags word carries O_APPEND on a handle opened without it (check_fd_flags / open_inode re-apply the request's
+   flags to the descriptor, minus O_APPEND only under the writeback switch).
+   [Some true] = the handle-less path was taken / the setuid bit was cleared / O_APPEND was stripped;
+   [None] = not observable. *)
 Record hpaths := mkH {
   h_flush : uprobe; h_getattr : option bool; h_fsync : option bool; h_readdir : option bool;
-  h_write_kp : option bool
+  h_write_kp : option bool; h_write_append : option bool
 }.
 
 (* PassthroughFs: flush() tests no_open; do_getattr() uses the handle only when !no_open; fsync()/write() go through
    get_data() (no_open), readdir() through get_dirdata() (no_opendir); write() tests killpriv_v2 *)
 Definition pt_hpaths (t : toggles) : hpaths :=
   mkH (if t_no_open t then UEnosys else UOk) (Some (t_no_open t)) (Some (t_no_open t)) (Some (t_no_opendir t))
-      (Some (t_killpriv_v2 t)).
+      (Some (t_killpriv_v2 t)) (Some (t_writeback t)).
 
 (* OverlayFs: flush() tests no_open; getattr() and do_readdir() fall back to the inode for an unknown handle in
    either mode (not observable); fsync()/write() go through get_data(): handle mode = ENOENT for an unknown handle,
    no-open mode = the layer is called with real handle 0, which the layer (never initialised, handle mode) refuses
    with EBADF -- so a write in no-open mode fails and its kill-priv effect is not observable; in handle mode the
-   write reaches the layer, whose kill-priv switch is never set *)
+   write reaches the layer, whose kill-priv and writeback switches are never set (the layer re-applies O_APPEND) *)
 Definition ovl_hpaths (t : toggles) : hpaths :=
   mkH (if t_no_open t then UEnosys else UOk) None (Some (t_no_open t)) None
-      (if t_no_open t then None else Some false).
+      (if t_no_open t then None else Some false) (if t_no_open t then None else Some false).
 
 (* Vfs: all five are forwarded to the backend; when the Vfs itself answered OPEN with ENOSYS while its backend is
    in handle mode (configured out_opts without ZERO_MESSAGE_OPEN), handle 0 reaches a backend that never opened
@@ -278,11 +281,13 @@ Definition vfs_hpaths (s : vstate) (t : toggles) : hpaths :=
   let h := pt_hpaths t in
   let orphan := vfs_open_enosys s && negb (t_no_open t) in
   mkH (match h_flush h with UOk => if vfs_open_enosys s then UOther else UOk | x => x end)
-      (h_getattr h) (h_fsync h) (h_readdir h) (if orphan then None else h_write_kp h).
+      (h_getattr h) (h_fsync h) (h_readdir h) (if orphan then None else h_write_kp h)
+      (if orphan then None else h_write_append h).
 
 Definition hpaths_eqb (a b : hpaths) : bool :=
   uprobe_eqb (h_flush a) (h_flush b) && tri_eqb (h_getattr a) (h_getattr b) && tri_eqb (h_fsync a) (h_fsync b) &&
-  tri_eqb (h_readdir a) (h_readdir b) && tri_eqb (h_write_kp a) (h_write_kp b).
+  tri_eqb (h_readdir a) (h_readdir b) && tri_eqb (h_write_kp a) (h_write_kp b) &&
+  tri_eqb (h_write_append a) (h_write_append b).
 
 (* PassthroughFs puts FUSE_ATTR_DAX on an entry only if dax_file_size is configured and the file is at least
    that large; [dax_applies] says whether that holds for the probed file *)
